@@ -146,7 +146,7 @@ def justify_rules(run, fx):
             if c is None:
                 continue
             ats = set(dom.norm(j, a, True)[:3] for a, p in dom.atoms(j, c, True)) | set(dom.norm(j, a, p)[:3] for a, p in dom.atoms(j, c, True))
-            if ats & set(c1):
+            if ats & set(c1) and b in j.reachable_from(j.block_of[e1['i']]) and b != j.block_of[e1['i']]:
                 cands.append(b)
         if cands:
             first = min(cands, key=lambda b: len(domt[b]))
